@@ -8,6 +8,7 @@ from .. import paths
 from ..core import FUNC, call_attr, calls_in, const, dotted, is_const, kwarg, norm, text, walk_local
 
 EXPLANATION = [
+    'C12.sdu-boundary: LeCreditBasedChannel.process_output closes the SDU it is assembling as soon as one queued packet has been consumed entirely (path rule over the assembling loop): a notification / response written on an enhanced bearer arrives as its own PDU.',
     'C12.encode-once: the fan-out functions of notify / indicate pass the application\'s `value` through unchanged, and the single-bearer helpers encode exactly once (read_value(bearer) if value is None else attribute.encode_value(value)).',
     'C12.mtu-agreement: both ends adopt min(what this side announced, what the peer announced) as ATT_MTU (same rule as C10.mtu-agreement): long reads continue exactly where the first response ended and values are truncated to the MTU the client computed.',
     'C12.late-binding: no closure that is created inside a loop and kept (a sink, an event listener, a callback) reads the loop\'s variables freely; values are bound per iteration (default argument or functools.partial), so each bearer\'s callback serves its own bearer.',
